@@ -12,7 +12,13 @@ TraceSize ==
        /\ Ev.out.of = want
        /\ (~Ev.in.topnil => Ev.out.stat = want)      \* the first line of Stat reports the same number
 
+\* size.Stat's shape (extra X05): every line's indentation and number
+TraceStat ==
+    /\ IsEvent("stat")
+    /\ Ev.in.depth >= 0
+    /\ Ev.out.lines = StatD(Ev.in.t, Ev.in.v, Ev.in.depth, Ev.in.maxItem)
+
 TraceInit == l = 1
-TraceNext == TraceSize
+TraceNext == TraceSize \/ TraceStat
 TraceSpec == TraceInit /\ [][TraceNext]_l
 ============================================================================
